@@ -352,7 +352,24 @@ def var_spec(url, part):
     return spec
 
 
-def b64_one(run, op, n, padded, honest, part, key, k=13, what=None, spec=None, twin=True):
+def chip_refuses(op, params, ins, control, k):
+    """True when the REAL chip panics while the circuit for `ins` is synthesized (exit status 101 of the
+    harness, no dump) although the same harness, operation and parameters synthesize the well-formed
+    `control` input. Anything else (harness failure, both fail, dump produced) is False: the caller then
+    goes through the normal extraction, which reports its own failures as INCONCLUSIVE."""
+    import subprocess
+    A.build()
+    p = subprocess.run([A.AXBIN] + cengine.cx_args("base64", op, params, ins, k), capture_output=True, text=True)
+    if p.returncode != 101 or p.stdout.strip():
+        return False
+    c = subprocess.run([A.AXBIN] + cengine.cx_args("base64", op, params, control, k), capture_output=True, text=True)
+    try:
+        return c.returncode == 0 and bool(json.loads(c.stdout)["honest_verify"])
+    except Exception:  # noqa
+        return False
+
+
+def b64_one(run, op, n, padded, honest, part, key, k=13, what=None, spec=None, twin=True, refusal_control=None):
     url = op.endswith("url")
     var = op.startswith("var_")
     tag = f"C/{op}[{'len=' if var else 'n='}{n}{'' if var else (',padded' if padded else ',unpadded')}]:{part}"
@@ -369,6 +386,14 @@ def b64_one(run, op, n, padded, honest, part, key, k=13, what=None, spec=None, t
     params = {} if var else {"padded": padded}
     spec = spec or (var_spec(url, part) if var else fixed_spec(url, padded, part))
     t0 = time.time()
+    if refusal_control is not None and chip_refuses(op, params, list(honest), list(refusal_control), k):
+        # the property asks that no assignment is accepted for a malformed input; it does not ask that a
+        # circuit exists for a shape every input of which is malformed
+        ob.nontrivial = False
+        ob.vacuity = True
+        ob.set(HOLDS, f"the real chip refuses this shape when the circuit is built (panic during synthesis; the well-formed sibling shape of length {len(refusal_control)} is synthesized): no circuit exists, hence no accepted assignment")
+        run.log(f"{ob.status:12s} {tag} {ob.detail[:200]}")
+        return
     try:
         A.c_decide(run, ob, "base64", op, params, list(honest), spec, k=k, timeout=120, enc_cls=A.B64Enc, twin=twin, discover=True)
     except Exception as ex:  # noqa
@@ -402,8 +427,8 @@ def b64_jobs(run, tier):
     add("decode_base64url", 4, True, b"Pz8-", "urlstrict", "base64url:accepts-standard-alphabet")
     # a length that no Base64 text has (1 mod 4): every input is malformed, the system must be unsatisfiable
     add("decode_base64", 5, False, b"QUJDR", "data", "base64:length-1-mod-4",
-        what="unpadded input of length 1 mod 4 (no Base64 text has that length): the constraints must be unsatisfiable",
-        spec=lambda e, I, O, system: "false", twin=False)
+        what="unpadded input of length 1 mod 4 (no Base64 text has that length): the constraints must be unsatisfiable, or the chip must refuse to build the circuit",
+        spec=lambda e, I, O, system: "false", twin=False, refusal_control=b"QUJDRA")
     return J
 
 
